@@ -369,6 +369,9 @@ func checkHistory(c Case) error {
 type ConcCase struct {
 	Members []Case `json:"members"`
 	Rounds  int    `json:"rounds"`
+	// "" each call makes its own Packer | "shared": one Packer value (member 0's options) serves every goroutine |
+	// "pkgfunc": the package-level Pack(src, w, dereference), each member with its own flag
+	Mode string `json:"mode,omitempty"`
 }
 
 var subConcurrent = ev.Register("concurrent", checkConcurrent)
@@ -398,6 +401,22 @@ func checkConcurrent(cc ConcCase) error {
 		ms = append(ms, member{src: src, vars: vars, opts: c.Opts, clean: cleanup})
 	}
 	ev.NonTrivial(cc, "concurrent-packs")
+	var shared *slug.Packer
+	switch cc.Mode {
+	case "shared":
+		var err error
+		shared, err = ms[0].opts.Packer(ms[0].vars)
+		if err != nil {
+			return fmt.Errorf("harness: %v", err)
+		}
+		for i := range ms {
+			ms[i].opts, ms[i].vars = ms[0].opts, ms[0].vars
+		}
+	case "pkgfunc":
+		for i := range ms {
+			ms[i].opts = pk.Opts{Deref: ms[i].opts.Deref, Ignore: true}
+		}
+	}
 	// The concurrent phase comes first: state that go-slug initialises lazily
 	// or mutates on first use is then touched by several goroutines at once.
 	type result struct {
@@ -414,7 +433,27 @@ func checkConcurrent(cc ConcCase) error {
 			<-start
 			m := ms[i]
 			for k := 0; k < cc.Rounds; k++ {
-				data, _, err, panicked := pk.PackBytes(m.opts, m.vars, m.src)
+				var data []byte
+				var err error
+				var panicked any
+				switch cc.Mode {
+				case "shared":
+					var buf bytes.Buffer
+					func() {
+						defer func() { panicked = recover() }()
+						_, err = shared.Pack(m.src, &buf)
+					}()
+					data = buf.Bytes()
+				case "pkgfunc":
+					var buf bytes.Buffer
+					func() {
+						defer func() { panicked = recover() }()
+						_, err = slug.Pack(m.src, &buf, m.opts.Deref)
+					}()
+					data = buf.Bytes()
+				default:
+					data, _, err, panicked = pk.PackBytes(m.opts, m.vars, m.src)
+				}
 				got, gerr := decodeOrErr(data, err, panicked)
 				results[i] = append(results[i], result{got, gerr})
 			}
@@ -510,6 +549,7 @@ func TestPropConcurrent(t *testing.T) {
 			}
 			cc.Members = append(cc.Members, c)
 		}
+		cc.Mode = rapid.SampledFrom([]string{"", "", "shared", "pkgfunc"}).Draw(t, "mode")
 		return cc
 	})
 }
